@@ -10,7 +10,7 @@ import re
 from vf import core
 
 ID = 'C18'
-N = {'quick': 80000, 'thorough': 600000}
+N = {'quick': 1000000, 'thorough': 4000000}
 NT_RULE = ('id collections of 0-60 ids from 1-3 prefixes (plain, containing the delimiter, empty with / '
            'without a leading delimiter), suffixes 0-99999 zero-padded to 4 digits (as pMuTT writes them) or '
            'with other paddings, duplicates, any order, given as str or as objects with .id / .name, '
